@@ -700,7 +700,73 @@ def c10(ctx):
     ctx.attack_catalogue("ake")
 
 
+def go_check(ctx, args, marker, viol_marker, what):
+    """Run a Go-side sub-command that prints '<marker> k=v ...' and '<viol_marker> ...' lines."""
+    import re
+    out = vlib.run_driver(args, timeout=3000)
+    stats, first = {}, None
+    for line in out.splitlines():
+        if line.startswith(viol_marker) and first is None:
+            first = line
+        if line.startswith("PANIC") and first is None:
+            first = line
+        if line.startswith(marker):
+            for kv in line.split()[1:]:
+                k, v = kv.split("=")
+                stats[k] = stats.get(k, 0) + int(v)
+    if stats.get("violations", 0) or first:
+        ctx.findings.append(dict(kind="GO", reason=(first or what)[:400], trace=None, line=0, ev=args[0], p="-", run=None, idx=None))
+    return stats
+
+
+def c17(ctx):
+    """Codec.tla: the wire encoding on byte sequences with its round-trip theorems (checked by TLC as
+    ASSUMEs over all small values); the (value, bytes) vectors TLC prints are run through the real
+    serialisers and parsers; generated values beyond TLC's scope (field lengths up to 65536, leading
+    zeros, all TLV types, SMP payloads with multi-byte questions, DSA keys and libotr key files)."""
+    import shutil, re
+    q = ctx.quick()
+    d = os.path.join(ctx.work, "codec")
+    os.makedirs(d, exist_ok=True)
+    shutil.copy(os.path.join(vlib.SPEC, "Codec.tla"), d)
+    open(os.path.join(d, "Codec.cfg"), "w").write("""SPECIFICATION Spec
+CONSTANTS
+  Alphabet = {0, 1, %s255}
+  MaxLen = %d
+  Export = TRUE
+CHECK_DEADLOCK FALSE
+""" % ("" if q else "2, 128, ", 3 if q else 4))
+    rc, out = vlib.run_tlc(d, module="Codec", workers=1, timeout=3000, heap="4g")
+    gen, dist, err = vlib.tlc_stats(out)
+    if rc != 0 or err:
+        raise Broken("Codec.tla: rc=%s %s" % (rc, err))
+    vec = os.path.join(d, "vec.ndjson")
+    n = 0
+    with open(vec, "w") as fo:
+        for line in open(out, errors="replace"):
+            m = re.match(r'<<"CODECVEC", "(.*)">>\s*$', line)
+            if m:
+                fo.write(m.group(1).replace('\\"', '"') + "\n")
+                n += 1
+    ctx.states += max(dist, 1)
+    ctx.transitions += max(gen, 1)
+    ctx.model_runs.append(dict(name="Codec.tla", states=dist, transitions=gen, vectors=n,
+                               theorems=["RoundTripData", "RoundTripMPI", "RoundTripTLV", "RoundTripDHCommit", "RoundTripRevealSig", "TruncationRefused"]))
+    st = go_check(ctx, ["codeccheck", "-vectors", vec, "-rounds", "120" if q else "1500", "-seed", str(ctx.seed)], "CODECCHECK", "CODECVIOLATION",
+                  "serialisation round trip differs from Codec.tla")
+    ctx.traces_validated += st.get("vectors", 0)
+    ctx.events += st.get("vectors", 0) + st.get("generated", 0) + st.get("keys", 0)
+    ctx.schedules += st.get("vectors", 0) + st.get("generated", 0)
+    ctx.samples.append(dict(vector=open(vec).readline().strip()[:300]))
+    ctx.extra_cov["codec"] = st
+    # inside real sessions: every message of SMP / extra-key / data runs is parsed by the independent
+    # codec and must give the record the specification computes
+    ctx.random_validate("smp", 8 if q else 80, 3)
+    ctx.random_validate("data", 16 if q else 160, 60)
+
+
 TABLE = {
+    "C17": c17,
     "C10": c10,
     "C08": c08,
     "C14": c14,
